@@ -105,6 +105,8 @@ where
 
     if sbbox.min.x > cbbox.max.x || cbbox.min.x > sbbox.max.x || sbbox.min.y > cbbox.max.y || cbbox.min.y > sbbox.max.y
     {
+        #[cfg(feature = "verif-hooks")]
+        crate::verif_hooks::note_trivial();
         return trivial_result(subject, clipping, operation);
     }
 
